@@ -200,7 +200,7 @@ theorem incFuel_noPanic (P : Prims) (O : OutPrims) (h : PrimsNoPanic P O) (cfg :
     ∀ fuel, IncNoPanic (mkCtx P O cfg fs fuel) := by
   intro fuel
   induction fuel with
-  | zero => intro line f env; exact .unmodelled _
+  | zero => intro line f env; exact .fail _
   | succ n ih =>
     intro line f env
     show NoPanicProg (renderFileWith P O cfg fs (incFuel P O cfg fs n) line f env)
